@@ -271,5 +271,5 @@ func Param(name string, quick, thorough int) int {
 	return quick
 }
 
-func WatchLocked(p unsafe.Pointer, lock unsafe.Pointer) {}
+func WatchLocked(p unsafe.Pointer, n uintptr, lock unsafe.Pointer) {}
 func Unwatch()                                           {}
